@@ -325,21 +325,32 @@ def _model(self, init):
 Spec.model = _model
 
 
-def _fulls(fx):
+def _fulls(fx, ctx=None):
+    """Full read of every fixture (the data oracle).  A fixture whose plain read-to-end fails is itself a violation (a
+    well-formed file must be readable from position 0) and is left out of the exploration."""
     import mdtraj as md
     out = {}
-    for fmt, p in fx.items():
+    for fmt, p in list(fx.items()):
         if fmt.startswith("_"):
             continue
         for ai in (None, [0, 2]):
-            with _open(p) as f:
-                out[(fmt, ai is not None)] = _norm(f.read(atom_indices=ai))
+            try:
+                with _open(p) as f:
+                    out[(fmt, ai is not None)] = _norm(f.read(atom_indices=ai))
+            except Exception as e:  # noqa
+                if ctx is None:
+                    raise
+                ctx.violation("%s|readall|raised|full-read" % fmt, "open; read() on the fixture raised %s: %s" % (type(e).__name__, str(e)[:120]),
+                              {"init": "%s/1/%s" % (fmt, "all" if ai is None else "sub"), "history": [[0, "readall"]]})
+                fx.pop(fmt, None)
+                out.pop((fmt, False), None)
+                break
     return out
 
 
 def run(ctx):
     fx = make_fixtures(ctx)
-    fulls = _fulls(fx)
+    fulls = _fulls(fx, ctx)
     for (fmt, ai), full in fulls.items():
         n = full[0].shape[0]
         assert n >= 2, (fmt, n)
